@@ -283,6 +283,7 @@ def run_property(prop, tier, seed):
         violations.append((f["fail"]["what"], path, True))
 
     # deductive failures -> violations (replayed through the bounded input when there is one)
+    native_cache = {}
     kn_ob = dict((k.get("obligation"), k) for k in known.get("findings", []) if k.get("obligation") and k["property"] == prop)
     for q, o, genuine in failing_obs:
         hit = [k for pat, k in kn_ob.items() if pat and pat in o["id"]]
@@ -292,6 +293,22 @@ def run_property(prop, tier, seed):
                 known_lines.append(line)
             continue
         payload = {"function": q, "obligation": o["id"], "solver_status": o["status"], "stage": o.get("stage"), "backend": o.get("backend"), "counter_model": o.get("model") or o.get("stage1_model"), "detail": o.get("detail"), "bounded_input": bounded_input}
+        # replay on the real code: a native counter-example of the function's contract
+        nat = None
+        if q != "static":
+            if q not in native_cache:
+                try:
+                    from pyvc import native
+
+                    native_cache[q] = native.replay(q, REPO)
+                except Exception as e:
+                    native_cache[q] = None
+            nat = native_cache[q]
+        if nat:
+            payload["native_replay"] = nat
+            path = write_replay(prop, "native", payload)
+            violations.append(("obligation %s fails; the real function contradicts its contract on %s" % (o["id"], json.dumps(nat["input"], default=str)[:160]), path, True))
+            continue
         path = bounded_input or write_replay(prop, "obligation", payload)
         if bounded_input:
             write_replay(prop, "obligation", payload)
@@ -378,6 +395,17 @@ def replay(path):
             print("VIOLATION property=%s replay=%s" % (prop, path))
             return 1
         print("replay: the recorded input no longer fails")
+        return 0
+    if body["kind"] == "native" and body.get("native_replay"):
+        from pyvc import native
+
+        nat = native.replay(body["function"], REPO)
+        print("replay: obligation %s of %s" % (body.get("obligation"), body.get("function")))
+        if nat:
+            print("replay: the real function still contradicts its contract: %s" % json.dumps(nat, default=str)[:1500])
+            print("VIOLATION property=%s replay=%s" % (prop, path))
+            return 1
+        print("replay: the real function now satisfies its contract on the searched inputs")
         return 0
     print("replay: this file records a failed proof obligation without a concrete input:")
     print(json.dumps({k: body.get(k) for k in ("function", "obligation", "solver_status", "counter_model")}, indent=1)[:4000])
